@@ -830,6 +830,20 @@ where
             return;
         }
 
+        // The key may have been invalidated, evicted or rejected (and possibly inserted
+        // again) while this op was waiting in the queue. Only an entry that the map
+        // still holds (this one, or a newer one sharing its EntryInfo) can be admitted;
+        // otherwise the deque nodes and the counters would refer to a key that has
+        // already left the map.
+        let is_current = self
+            .cache
+            .get(&kh.key)
+            .map(|cur| TrioArc::ptr_eq(cur.entry_info(), entry.entry_info()))
+            .unwrap_or(false);
+        if !is_current {
+            return;
+        }
+
         if self.has_enough_capacity(new_weight, counters) {
             // There are enough room in the cache (or the cache is unbounded).
             // Add the candidate to the deques.
@@ -840,7 +854,7 @@ where
         if let Some(max) = self.max_capacity {
             if new_weight as u64 > max {
                 // The candidate is too big to fit in the cache. Reject it.
-                self.cache.remove(&Arc::clone(&kh.key));
+                Self::remove_rejected(&self.cache, &kh, &entry);
                 return;
             }
         }
@@ -877,7 +891,7 @@ where
             AdmissionResult::Rejected { skipped_nodes: s } => {
                 skipped_nodes = s;
                 // Remove the candidate from the cache (hash map).
-                self.cache.remove(&Arc::clone(&kh.key));
+                Self::remove_rejected(&self.cache, &kh, &entry);
             }
         };
 
@@ -886,6 +900,18 @@ where
         for node in skipped_nodes {
             unsafe { deqs.probation.move_to_back(node) };
         }
+    }
+
+    /// Removes a rejected candidate from the map, unless the key has been inserted
+    /// again in the meantime: the newer value has its own write op in the queue and
+    /// will be judged on its own.
+    #[inline]
+    fn remove_rejected(
+        cache: &CacheStore<K, V, S>,
+        kh: &KeyHash<K>,
+        entry: &TrioArc<ValueEntry<K, V>>,
+    ) {
+        cache.remove_if(&kh.key, |_, current| TrioArc::ptr_eq(current, entry));
     }
 
     /// Performs size-aware admission explained in the paper:
